@@ -88,6 +88,19 @@ theorem advanceDay_some {π : Type} {src : Source π} {st st' : DState π} (h : 
       simp only [Option.some.injEq] at h; subst h
       exact ⟨rfl, Or.inr ⟨h1, rfl, rfl⟩⟩
 
+/-- ZEIT and J of the state the loop is entered with -/
+theorem initState_fields {π : Type} {src : Source π} {store : Store π} {anjahr beginn itag : Nat} {st : DState π}
+    (hs : initState src store anjahr beginn itag = some st) : st.zeit = beginn ∧ st.j = anjahr - 1900 := by
+  unfold initState at hs
+  simp only at hs
+  split at hs
+  · simp at hs
+  · rename_i st1 hr
+    simp only [Option.some.injEq] at hs
+    obtain ⟨a, _, c⟩ := reload_some hr
+    subst hs
+    exact ⟨a, c⟩
+
 /-- state before a pass: yesterday's day of the year; no loaded year longer than its calendar year -/
 def LockPre {π : Type} (st : DState π) : Prop :=
   st.zeit = masdat st.j 1 1 + st.tagNum ∧ st.tagNum ≤ diy st.j ∧ st.jtag ≤ diy st.j ∧ 1 ≤ st.j ∧ st.j ≤ 199
